@@ -6,6 +6,10 @@ results of evaluations are concrete values.
 import RedunModel.Model.EvalCore
 namespace RedunModel.EvalCore
 
+/-- the rules never prescribe "unknown" -/
+theorem Eval.ne_unk {lib : Lib} {e : Expr} {r : Out} (h : Eval lib e r) : r ≠ .unk := by
+  induction h <;> first | assumption | (intro hc; cases hc)
+
 theorem mem_bindO {rs : Outs} {k : Expr → Outs} {r : Out} :
     r ∈ bindO rs k ↔ (∃ v, .ok v ∈ rs ∧ r ∈ k v) ∨ (∃ x, r = .err x ∧ .err x ∈ rs) ∨ (r = .unk ∧ .unk ∈ rs) := by
   unfold bindO
@@ -424,5 +428,352 @@ theorem evalFuel_sound {lib : Lib} {n : Nat} {e : Expr} {r : Out} (h : evalFuel 
     cases h
     exact evalAll_sound n e _ (by rw [heq]; simp) (by simp)
   · cases h
+
+/-! ## Values -/
+
+theorem isLeaf_isValue {e : Expr} (h : isLeaf e = true) : isValue e = true := by
+  cases e <;> simp [isLeaf] at h <;> simp [isValue]
+
+theorem list_self {lib : Lib} : ∀ xs : List Expr, (∀ x ∈ xs, Eval lib x (.ok x)) → Eval lib (L xs) (.ok (L xs)) := by
+  intro xs
+  induction xs with
+  | nil => intro _; exact Eval.nil
+  | cons x xs ih =>
+    intro h
+    exact Eval.cons (h x (by simp)) (ih (fun y hy => h y (by simp [hy])))
+
+theorem allValues_mem : ∀ {xs : List Expr}, allValues xs = true → ∀ x ∈ xs, isValue x = true := by
+  intro xs
+  induction xs with
+  | nil => intro _ x hx; cases hx
+  | cons y ys ih =>
+    intro h x hx
+    simp only [allValues, Bool.and_eq_true] at h
+    rcases List.mem_cons.mp hx with rfl | hx
+    · exact h.1
+    · exact ih h.2 x hx
+
+theorem allValues_of_mem : ∀ {xs : List Expr}, (∀ x ∈ xs, isValue x = true) → allValues xs = true := by
+  intro xs
+  induction xs with
+  | nil => intro _; rfl
+  | cons y ys ih =>
+    intro h
+    simp only [allValues, Bool.and_eq_true]
+    exact ⟨h y (by simp), ih (fun x hx => h x (by simp [hx]))⟩
+
+theorem list_ok_append {lib : Lib} {b vb : List Expr} (hb : Eval lib (L b) (.ok (L vb))) :
+    ∀ (a va : List Expr), Eval lib (L a) (.ok (L va)) → Eval lib (L (a ++ b)) (.ok (L (va ++ vb))) := by
+  intro a
+  induction a with
+  | nil =>
+    intro va h
+    cases h with
+    | nil => simpa using hb
+    | leaf h => simp [isLeaf] at h
+    | cont hk _ _ => exact absurd rfl hk
+  | cons x xs ih =>
+    intro va h
+    cases h with
+    | cons h1 h2 => exact Eval.cons h1 (ih _ h2)
+    | leaf h => simp [isLeaf] at h
+    | cont hk _ _ => exact absurd rfl hk
+
+mutual
+  theorem value_self {lib : Lib} : ∀ v : Expr, isValue v = true → Eval lib v (.ok v)
+    | .none, _ => Eval.leaf rfl
+    | .bool _, _ => Eval.leaf rfl
+    | .int _, _ => Eval.leaf rfl
+    | .str _, _ => Eval.leaf rfl
+    | .errv _, _ => Eval.leaf rfl
+    | .cls _, _ => Eval.leaf rfl
+    | .pyfunc _, _ => Eval.leaf rfl
+    | .taskv _, _ => Eval.leaf rfl
+    | .partialv _ _ _ _, _ => Eval.leaf rfl
+    | .threadv _, _ => Eval.leaf rfl
+    | .cont k items, h => by
+      simp only [isValue, Bool.and_eq_true] at h
+      have hl := values_self (lib := lib) items h.1
+      by_cases hk : k = .list
+      · subst hk; exact hl
+      · exact Eval.cont hk hl h.2
+    | .dict ks vs, h => by
+      simp only [isValue, Bool.and_eq_true] at h
+      have hk := values_self (lib := lib) ks h.1.1
+      have hv := values_self (lib := lib) vs h.1.2
+      have hl := list_ok_append hv _ _ hk
+      have := Eval.dict (lib := lib) (ks := ks) (vs := vs) hl (by simpa using h.2)
+      simpa using this
+    | .vexpr _, h => by simp [isValue] at h
+    | .call _ _ _ _, h => by simp [isValue] at h
+    | .op _ _, h => by simp [isValue] at h
+    | .cond _, h => by simp [isValue] at h
+    | .seq _, h => by simp [isValue] at h
+    | .catch _ _ _, h => by simp [isValue] at h
+    | .catchAll _ _ _, h => by simp [isValue] at h
+    | .map_ _ _, h => by simp [isValue] at h
+    | .applyTags _ _ _ _, h => by simp [isValue] at h
+    | .fork _, h => by simp [isValue] at h
+    | .join _, h => by simp [isValue] at h
+    | .subrun _ _, h => by simp [isValue] at h
+    | .settle _, h => by simp [isValue] at h
+  theorem values_self {lib : Lib} : ∀ xs : List Expr, allValues xs = true → Eval lib (L xs) (.ok (L xs))
+    | [], _ => Eval.nil
+    | y :: ys, h => by
+      simp only [allValues, Bool.and_eq_true] at h
+      exact Eval.cons (value_self y h.1) (values_self ys h.2)
+end
+
+
+theorem list_unique {lib : Lib} : ∀ xs : List Expr, (∀ x ∈ xs, ∀ r, Eval lib x r → r = .ok x) →
+    ∀ r, Eval lib (L xs) r → r = .ok (L xs) := by
+  intro xs
+  induction xs with
+  | nil =>
+    intro _ r h
+    cases h with
+    | nil => rfl
+    | leaf h => simp [isLeaf] at h
+    | cont hk _ _ => exact absurd rfl hk
+    | contErr hk _ => exact absurd rfl hk
+  | cons x xs ih =>
+    intro hx r h
+    have ih' := ih (fun y hy => hx y (by simp [hy]))
+    cases h with
+    | cons h1 h2 =>
+      have e1 := hx x (by simp) _ h1
+      have e2 := ih' _ h2
+      injection e1 with e1
+      injection e2 with e2
+      injection e2 with _ e2
+      subst e1 e2
+      rfl
+    | consErrHd h1 => exact absurd (hx x (by simp) _ h1) (by simp)
+    | consErrTl h2 => exact absurd (ih' _ h2) (by simp)
+    | leaf h => simp [isLeaf] at h
+    | cont hk _ _ => exact absurd rfl hk
+    | contErr hk _ => exact absurd rfl hk
+
+mutual
+  theorem value_unique {lib : Lib} : ∀ v : Expr, isValue v = true → ∀ r, Eval lib v r → r = .ok v
+    | .none, _ => fun r h => by cases h; rfl
+    | .bool _, _ => fun r h => by cases h; rfl
+    | .int _, _ => fun r h => by cases h; rfl
+    | .str _, _ => fun r h => by cases h; rfl
+    | .errv _, _ => fun r h => by cases h; rfl
+    | .cls _, _ => fun r h => by cases h; rfl
+    | .pyfunc _, _ => fun r h => by cases h; rfl
+    | .taskv _, _ => fun r h => by cases h; rfl
+    | .partialv _ _ _ _, _ => fun r h => by cases h; rfl
+    | .threadv _, _ => fun r h => by cases h; rfl
+    | .cont k items, hv => fun r h => by
+      simp only [isValue, Bool.and_eq_true] at hv
+      have hu := list_unique (lib := lib) items (values_unique items hv.1)
+      by_cases hk : k = .list
+      · subst hk; exact hu r h
+      · cases h with
+        | leaf h => simp [isLeaf] at h
+        | cont _ h1 _ =>
+          have := hu _ h1
+          injection this with this
+          injection this with _ this
+          subst this; rfl
+        | contErr _ h1 => exact absurd (hu _ h1) (by simp)
+        | nil => exact absurd rfl hk
+        | cons _ _ => exact absurd rfl hk
+        | consErrHd _ => exact absurd rfl hk
+        | consErrTl _ => exact absurd rfl hk
+    | .dict ks vs, hv => fun r h => by
+      simp only [isValue, Bool.and_eq_true] at hv
+      have hu := list_unique (lib := lib) (ks ++ vs) (by
+        intro x hx
+        rcases List.mem_append.mp hx with hx | hx
+        · exact values_unique ks hv.1.1 x hx
+        · exact values_unique vs hv.1.2 x hx)
+      cases h with
+      | leaf h => simp [isLeaf] at h
+      | dict h1 _ =>
+        have := hu _ h1
+        injection this with this
+        injection this with _ this
+        subst this
+        simp
+      | dictErr h1 => exact absurd (hu _ h1) (by simp)
+    | .vexpr _, h => by simp [isValue] at h
+    | .call _ _ _ _, h => by simp [isValue] at h
+    | .op _ _, h => by simp [isValue] at h
+    | .cond _, h => by simp [isValue] at h
+    | .seq _, h => by simp [isValue] at h
+    | .catch _ _ _, h => by simp [isValue] at h
+    | .catchAll _ _ _, h => by simp [isValue] at h
+    | .map_ _ _, h => by simp [isValue] at h
+    | .applyTags _ _ _ _, h => by simp [isValue] at h
+    | .fork _, h => by simp [isValue] at h
+    | .join _, h => by simp [isValue] at h
+    | .subrun _ _, h => by simp [isValue] at h
+    | .settle _, h => by simp [isValue] at h
+  theorem values_unique {lib : Lib} : ∀ xs : List Expr, allValues xs = true →
+      ∀ x ∈ xs, ∀ r, Eval lib x r → r = .ok x
+    | [], _ => fun x hx => by cases hx
+    | y :: ys, h => fun x hx r hr => by
+      simp only [allValues, Bool.and_eq_true] at h
+      rcases List.mem_cons.mp hx with heq | hx
+      · have := value_unique y h.1 r (heq ▸ hr)
+        rw [heq]; exact this
+      · exact values_unique ys h.2 x hx r hr
+end
+
+
+
+
+theorem allValues_take {xs : List Expr} (h : allValues xs = true) (n : Nat) : allValues (xs.take n) = true :=
+  allValues_of_mem fun x hx => allValues_mem h x (List.mem_of_mem_take hx)
+
+theorem allValues_drop {xs : List Expr} (h : allValues xs = true) (n : Nat) : allValues (xs.drop n) = true :=
+  allValues_of_mem fun x hx => allValues_mem h x (List.mem_of_mem_drop hx)
+
+theorem isValue_L {xs : List Expr} : isValue (L xs) = allValues xs := by
+  simp [isValue, contOk]
+
+theorem unsettle_values : ∀ (outs : List Expr) (vals : List Expr) (errs : List Err), allValues outs = true →
+    unsettle outs = some (vals, errs) → allValues vals = true := by
+  intro outs
+  fun_induction unsettle outs with
+  | case1 => intro vals errs _ h; simp at h; rw [h.1]; rfl
+  | case2 v rest ih =>
+    intro vals errs hv h
+    simp only [allValues, Bool.and_eq_true] at hv
+    cases hu : unsettle rest with
+    | none => simp [hu] at h
+    | some p =>
+      obtain ⟨vs, es⟩ := p
+      simp [hu] at h
+      have h1 := ih vs es hv.2 hu
+      have hv1 : isValue v = true := by
+        have := hv.1
+        simp [isValue, allValues, contOk] at this
+        exact this
+      rw [← h.1]
+      simp [allValues, hv1, h1]
+  | case3 x rest ih =>
+    intro vals errs hv h
+    simp only [allValues, Bool.and_eq_true] at hv
+    cases hu : unsettle rest with
+    | none => simp [hu] at h
+    | some p =>
+      obtain ⟨vs, es⟩ := p
+      simp [hu] at h
+      have h1 := ih vs es hv.2 hu
+      rw [← h.1]
+      simp [allValues, isValue, h1]
+  | case4 => intro vals errs _ h; cases h
+
+theorem rebuild_value {s : Shape} {vals : List Expr} {v : Expr} (hv : allValues vals = true)
+    (h : rebuild s vals = .ok v) : isValue v = true := by
+  unfold rebuild at h
+  split at h
+  · injection h with h; subst h
+    simp [allValues] at hv; exact hv
+  · split at h
+    · rename_i hc
+      injection h with h; subst h
+      simp [isValue, hv, hc]
+    · cases h
+  · split at h
+    · rename_i hc
+      injection h with h; subst h
+      simp [isValue, allValues_take hv, allValues_drop hv, hc]
+    · cases h
+  · cases h
+
+theorem result_isValue {lib : Lib} {e : Expr} {r : Out} (h : Eval lib e r) : ∀ v, r = .ok v → isValue v = true := by
+  induction h with
+  | leaf hl => intro v hv; injection hv with hv; subst hv; exact isLeaf_isValue hl
+  | vexpr hv' => intro v hv; injection hv with hv; subst hv; exact hv'
+  | nil => intro v hv; injection hv with hv; subst hv; rfl
+  | cons _ _ ih1 ih2 =>
+    intro v hv; injection hv with hv; subst hv
+    have h1 := ih1 _ rfl
+    have h2 := ih2 _ rfl
+    rw [isValue_L] at h2 ⊢
+    simp [allValues, h1, h2]
+  | consErrHd _ _ => intro v hv; cases hv
+  | consErrTl _ _ => intro v hv; cases hv
+  | cont hk _ hc ih =>
+    intro v hv; injection hv with hv; subst hv
+    have := ih _ rfl
+    rw [isValue_L] at this
+    simp [isValue, this, hc]
+  | contErr _ _ _ => intro v hv; cases hv
+  | dict _ hc ih =>
+    intro v hv; injection hv with hv; subst hv
+    have := ih _ rfl
+    rw [isValue_L] at this
+    simp [isValue, allValues_take this, allValues_drop this, hc]
+  | dictErr _ _ => intro v hv; cases hv
+  | call _ _ _ _ _ ih => exact ih
+  | callRaise _ _ _ _ => intro v hv; cases hv
+  | callArgErr _ _ _ => intro v hv; cases hv
+  | op _ _ _ _ ih => exact ih
+  | opRaise _ _ _ => intro v hv; cases hv
+  | opArgErr _ _ => intro v hv; cases hv
+  | condErr _ _ => intro v hv; cases hv
+  | condThen _ _ _ _ ih => exact ih
+  | condElse _ _ _ _ ih => exact ih
+  | condElif _ _ _ _ ih => exact ih
+  | condNoElse _ _ _ => intro v hv; cases hv
+  | seqNil => intro v hv; injection hv with hv; subst hv; rfl
+  | seqCons _ _ ih1 ih2 =>
+    intro v hv; injection hv with hv; subst hv
+    have h1 := ih1 _ rfl
+    have h2 := ih2 _ rfl
+    rw [isValue_L] at h2 ⊢
+    simp [allValues, h1, h2]
+  | seqErrHd _ _ => intro v hv; cases hv
+  | seqErrTl _ _ _ _ => intro v hv; cases hv
+  | catchOk _ ih => exact ih
+  | catchMiss _ _ _ => intro v hv; cases hv
+  | catchHit _ _ _ _ _ ih => exact ih
+  | catchHitRaise _ _ _ _ => intro v hv; cases hv
+  | settleOk _ ih =>
+    intro v hv; injection hv with hv; subst hv
+    have := ih _ rfl
+    simp [isValue, allValues, contOk, this]
+  | settleErr _ _ => intro v hv; injection hv with hv; subst hv; simp [isValue, allValues, contOk]
+  | catchAllOk _ _ hun hb ih =>
+    intro v hv; injection hv with hv; subst hv
+    have := ih _ rfl
+    rw [isValue_L] at this
+    exact rebuild_value (unsettle_values _ _ _ this hun) hb
+  | catchAllFirst _ _ _ _ _ _ => intro v hv; cases hv
+  | catchAllArgErr _ _ _ _ _ _ _ _ => intro v hv; cases hv
+  | catchAllNoMatch _ _ _ _ _ _ _ _ _ => intro v hv; cases hv
+  | catchAllRecover _ _ _ _ _ _ _ _ _ _ _ _ ih => exact ih
+  | catchAllRecoverRaise _ _ _ _ _ _ _ _ _ _ _ => intro v hv; cases hv
+  | mapTaskErr _ _ => intro v hv; cases hv
+  | mapRaw _ _ _ _ _ ih => exact ih
+  | mapRawRaise _ _ _ _ => intro v hv; cases hv
+  | mapValuesErr _ _ _ _ _ => intro v hv; cases hv
+  | mapNotIter _ _ _ _ _ _ => intro v hv; cases hv
+  | mapEval _ _ _ _ _ _ _ _ ih => exact ih
+  | mapEvalRaise _ _ _ _ _ _ _ => intro v hv; cases hv
+  | applyTags _ _ _ _ ih =>
+    intro v hv; injection hv with hv; subst hv
+    have := ih _ rfl
+    rw [isValue_L] at this
+    simp [allValues] at this
+    exact this.1
+  | applyTagsErr _ _ => intro v hv; cases hv
+  | fork => intro v hv; injection hv with hv; subst hv; rfl
+  | join _ ih => exact ih
+  | subrunOk _ _ _ ih =>
+    intro v hv; injection hv with hv; subst hv
+    have := ih _ rfl
+    simp [isValue, allValues] at this
+    exact this.1.2
+  | subrunOkErr _ _ _ _ => intro v hv; cases hv
+  | subrunErrNew _ _ => intro v hv; cases hv
+  | subrunErrExt _ _ _ _ => intro v hv; cases hv
+  | subrunErrExtErr _ _ _ _ => intro v hv; cases hv
 
 end RedunModel.EvalCore
